@@ -11,6 +11,11 @@ func init() {
 			}
 			p.Jobs = append(p.Jobs, Job{Harness: "opset13.H_C06", Case: def})
 		}
+		// long sequences (17 and 20 steps: beyond any per-block handling of the time axis), split in the middle too
+		for _, op := range []string{"RNN", "GRU", "LSTM"} {
+			add(map[string]interface{}{"op": op, "seq": 17, "batch": 2, "input": 2, "hidden": 2, "B": true, "H0": false, "C0": false})
+			add(map[string]interface{}{"op": op, "seq": 20, "batch": 2, "input": 2, "hidden": 2, "B": false, "split": 16})
+		}
 		// float64 operands (the operators may refuse them; an answer must be right)
 		for _, op := range []string{"RNN", "GRU", "LSTM"} {
 			add(map[string]interface{}{"op": op, "dtype": "float64"})
